@@ -638,7 +638,7 @@ def c16_jobs():
     ]
     # systematic quick family: two known devices, then every sequence of 3 operations over a 6-operation alphabet that
     # contains at least one removal / clear
-    fam = [o("cm", 0), o("if", 0, 0), o("data", 0, 1), o("rmdev", 0), o("rmdev", 1), o("clear")]
+    fam = [o("cm", 0), o("if", 0, 0), o("if", 1, 0), o("data", 0, 1), o("rmdev", 0), o("rmdev", 1), o("clear")]
     removing = {o("rmdev", 0), o("rmdev", 1), o("clear")}
     for combo in itertools.product(fam, repeat=3):
         if removing & set(combo):
@@ -663,9 +663,13 @@ def c16_jobs():
             chunk = todo[i:i + 1]
             jobs.append(Job("c16.cpp", "h_status", cdefs=c16_seq(chunk), unwind=60, in_max=60 * max(len(o) for o in chunk) + 8, mem_gb=4, tier=tier,
                             sym="payload contents of every packet (the tracker never branches on them); ids and identity tags are concrete",
-                            outside="more than 3 devices / 3 interfaces per device, sequences longer than 6 operations; ids are concrete representatives (10, 0xFFFF, 0 / 7, 0xFFFFFFFF, 0); "
+                            outside="more than 3 devices / 3 interfaces per device, sequences longer than 6 operations; ids are concrete representatives that collide in their low 8 / 16 bits (0x010A, 0xFF0A, 0x000A / 0x00010007, 0xFFFF0107, 0x00000007; all id values: h_status_ids); "
                                     "one operation sequence per query",
                             note="%d sequences: %s" % (len(chunk), "; ".join(",".join(str(x) for x in o) for o in chunk[:3]))))
+    for step in (0, 1, 3):   # IDSTEP 2 (interface status of a never-seen device, symbolic id) exhausts memory; the concrete sequences cover it with colliding ids
+        jobs.append(Job("c16.cpp", "h_status_devids", defs={"IDSTEP": step}, unwind=60, in_max=16, mem_gb=4, tier="quick", sym="two device ids (all pairs of distinct 16-bit values)", outside="more than two entries in this query"))
+        if step != 2:
+            jobs.append(Job("c16.cpp", "h_status_ifids", defs={"IDSTEP": step}, unwind=60, in_max=16, mem_gb=4, tier="quick", sym="two interface ids (all pairs of distinct 32-bit values)", outside="more than two entries in this query"))
     return jobs
 
 
